@@ -8,7 +8,9 @@ PROP = dict(
                "(b) only name sources that owned the shard before, are members, carry the member's URI and are not the removed node, "
                "(c) be refused only with the 'not enough data' error and only when the model finds a newly owned fragment whose previous owners are all the removed node, "
                "(d) track exactly the resulting members, complete = has no sources. Then a real holder of one resulting node is filled with what the node held before plus what its instruction fetches, "
-               "holderCleaner.CleanHolder runs against the resulting cluster, and the fragments left must be exactly those whose shard the node owns now. nodeLeave of the coordinator must be refused without any change.",
+               "holderCleaner.CleanHolder runs against the resulting cluster, and the fragments left must be exactly those whose shard the node owns now. When that node is not the coordinator the same is repeated through the node's own `cluster`: a follower with a real Holder receives the status messages of a real resize "
+               "(NORMAL with the old members, RESIZING with the old members as carried by every ResizeInstruction, then - after the fragments of its instruction were created - NORMAL with the new members) through mergeClusterStatus, "
+               "and the cleanup it triggers itself on RESIZING -> NORMAL must leave exactly the fragments it owns under the NEW membership, for add-node and remove-node jobs. nodeLeave of the coordinator must be refused without any change.",
     level_note="Exploration beyond the stated grid. 'Names a source for every newly owned fragment' is checked as inclusion; plan entries that are not newly owned are only counted (none observed). "
                "The universe of fragments is every field/view of an index x the index-level available shards, which is how the plan generator itself enumerates (a field without data in a shard still gets an entry). "
                "Removal of the coordinator and removal of the only node are outside the plan generator's callers (nodeLeave refuses) and are checked as refusals. "
